@@ -700,6 +700,35 @@ def cache_key_injective(rec, F):
         rec.finding(R, "F4.once-key/full_import_path", "Vm::full_import_path %s: two different import paths (e.g. std.math and self.math) get the same module-cache key, so the second import silently receives the first module and its own file is never run" % what, loc=loc_of(drops[0][1]) if drops else fp.loc, fn=fp.path)
 
 
+def stub_pool_release(rec, F):
+    R = rec.rule("F4.stub-pool", "the placeholder Fun that names a stack-using native's frame is taken from native_fun_stubs before the native runs and handed back only after native.call has returned: while the native (and any callback it makes) is running, a nested native must not be able to take - and rename - the stub of a frame that is still on the stack, or tracebacks name the outer native wrongly")
+    cn = F.find1(r"<impl laythe_vm::vm::Vm>::call_native$")
+    if cn is None:
+        rec.anchor_lost("F4.stub-pool", "Vm::call_native")
+        return
+    calls = [bi for bi, t in cn.calls() if lastseg(t["f"]) == "call" and ("object::native::Native::call" in t["f"] or "LyNative" in (t.get("decl") or t["f"]))]
+    rel = []
+    acq = []
+    for bi, t in cn.calls():
+        if lastseg(t["f"]) == "push" and t["args"] and "native_fun_stubs" in str(sem.desc_operand(cn, t["args"][0])):
+            rel.append((bi, t))
+        if lastseg(t["f"]) == "pop" and t["args"] and "native_fun_stubs" in str(sem.desc_operand(cn, t["args"][0])):
+            acq.append((bi, t))
+    if not calls or not rel or not acq:
+        rec.anchor_lost("F4.stub-pool", "native.call / native_fun_stubs.pop / .push in call_native")
+        return
+    for rb, rt in rel:
+        # the release is on a path with a native.call: that call dominates it
+        paired = [c for c in calls if sem.reaches(cn, c, rb) or sem.reaches(cn, rb, c)]
+        ok = bool(paired) and all(cn.dominates(c, rb) for c in paired)
+        rec.inst(R, "call_native: stub returned to the pool after native.call", ok=ok, loc=loc_of(rt["sp"]))
+        if not ok:
+            rec.finding(R, "F4.stub-pool/release-before-call", "call_native puts the frame's stub back into native_fun_stubs before native.call returns: a native called from this native's callback takes the same stub and renames it, so the still-active outer frame is reported under the inner native's name in tracebacks and backTrace", loc=loc_of(rt["sp"]), fn=cn.path)
+    for ab, at in acq:
+        ok = all(cn.dominates(ab, c) for c in calls if sem.reaches(cn, ab, c))
+        rec.inst(R, "call_native: stub acquired before native.call", ok=ok, loc=loc_of(at["sp"]))
+
+
 def backtrace_window(rec, F):
     R = rec.rule("F10.bt", "pause_unwind appends the instruction pointers of the frames not yet recorded: counting from the innermost frame it first skips the current_len already recorded and then takes additional_len (which is computed relative to that position); finish_unwind/error_backtrace pair frames with those ips innermost first")
     pu = F.fn("laythe_vm::fiber::Fiber::pause_unwind")
@@ -764,3 +793,4 @@ def run_c18(rec, F):
     hook_exit(rec, F)
     ip_minus_one(rec, F)
     backtrace_window(rec, F)
+    stub_pool_release(rec, F)
